@@ -8,7 +8,7 @@ import Bandit.Gen.Defaults
 `Bandit.Spec.Crypto.*` the decision tables written from the property text and the plugin
 documentation.  Every `…_table` theorem holds for ARBITRARY in-module tables `T`, environments,
 call nodes and settings; the only hypotheses are that the node is a call and that the argument
-values the check looks at evaluate (when they do not, the real check raises — property C06).
+values the check looks at evaluate.
 -/
 namespace Props.C15
 open Bandit Bandit.Plugins Bandit.Spec.Crypto
@@ -310,63 +310,40 @@ theorem b508_secure_variant_silent (e : Env) (c : CallView) (kws : Kws) (hc : e.
   | none => simp
   | some v => have := hv v h; simp_all
 
-/-- **B509 (what the code decides)**: `pysnmp.hlapi.UsmUserData` with fewer than three *positional*
-arguments; total. -/
-theorem b509_code (e : Env) (c : CallView) (hc : e.call? = some c) :
-    b509 e = .ok (if (e.qual == "pysnmp.hlapi.UsmUserData".toList && decide (c.args.length < 3))
-                  then some { sev := .medium, conf := .high, loc := .kw ["UsmUserData"] } else none) := by
-  simp only [Plugins.b509, hc, pure, Except.pure]
-  by_cases h1 : (e.qual == "pysnmp.hlapi.UsmUserData".toList) = true <;> by_cases h2 : c.args.length < 3 <;>
-    simp only [h1, h2, if_true, if_false, Bool.true_and, Bool.false_and, decide_true, decide_false, Bool.false_eq_true]
-
-/-- **B509 fires iff** (code level) the call is `UsmUserData` with fewer than three positional arguments. -/
-theorem b509_iff (e : Env) (c : CallView) (hc : e.call? = some c) (r : PRaw) :
-    b509 e = .ok (some r) ↔
-      (e.qual = "pysnmp.hlapi.UsmUserData".toList ∧ c.args.length < 3) ∧
-      r = { sev := .medium, conf := .high, loc := .kw ["UsmUserData"] } := by
-  rw [b509_code e c hc, ok_ite_some_iff]
-  simp only [Bool.and_eq_true, beq_iff_eq, decide_eq_true_eq]
-
-/-- **B509 table, partial.** Under the guard that the keys are not passed by keyword
-(`authKey=` / `privKey=` absent), B509 fires exactly on unencrypted SNMPv3 (noAuthNoPriv, authNoPriv). -/
-theorem b509_table_partial (e : Env) (c : CallView) (kws : Kws) (hc : e.call? = some c)
-    (guard : kw kws "authKey" = none ∧ kw kws "privKey" = none) :
+/-- **B509 table** (full, after /repo fix 60708c5): reported iff the `UsmUserData` call is not
+encrypted — it lacks an authentication key (2nd positional or `authKey=`) or a privacy key (3rd
+positional or `privKey=`).  Total in the arguments: keyword *names* are read, nothing is evaluated
+(`hk` only ties the node's keyword names to the specification's view of the call). -/
+theorem b509_table (e : Env) (c : CallView) (kws : Kws) (hc : e.call? = some c)
+    (hk : c.callKeywords = .ok kws) :
     b509 e = .ok (if Spec.Crypto.b509 e.qual c.args.length kws
                   then some { sev := .medium, conf := .high, loc := .kw ["UsmUserData"] } else none) := by
-  rw [b509_code e c hc]
-  have : (!usmEncrypted c.args.length kws) = decide (c.args.length < 3) := by
-    simp only [usmEncrypted, guard.1, guard.2, Option.isSome_none, Bool.or_false]
-    by_cases h2 : c.args.length < 3
-    · have : ¬ 3 ≤ c.args.length := by omega
-      simp [h2, this]
-    · have h3 : 3 ≤ c.args.length := by omega
-      have h4 : 2 ≤ c.args.length := by omega
-      simp [h2, h3, h4]
-  simp only [Spec.Crypto.b509, this]
-
-/-- **B509 after the proposed fix** (`proposed_fixes/C15-b509-keyword-keys.diff`, model variant
-`b509Fixed`): the table holds without the guard. -/
-theorem b509_fixed_table (e : Env) (c : CallView) (kws : Kws) (hc : e.call? = some c)
-    (hk : c.callKeywords = .ok kws) :
-    b509Fixed e = .ok (if Spec.Crypto.b509 e.qual c.args.length kws
-                       then some { sev := .medium, conf := .high, loc := .kw ["UsmUserData"] } else none) := by
   have h2 : decide (c.args.length > 1) = decide (2 ≤ c.args.length) := by
     by_cases h : 2 ≤ c.args.length <;> simp [h] <;> omega
   have h3 : decide (c.args.length > 2) = decide (3 ≤ c.args.length) := by
     by_cases h : 3 ≤ c.args.length <;> simp [h] <;> omega
-  simp only [b509Fixed, hc, pure, Except.pure, Spec.Crypto.b509, usmEncrypted, kw_isSome hk, h2, h3]
+  simp only [Plugins.b509, hc, pure, Except.pure, Spec.Crypto.b509, usmEncrypted, kw_isSome hk, h2, h3]
   by_cases h1 : (e.qual == "pysnmp.hlapi.UsmUserData".toList) = true
   · simp only [h1, if_true, Bool.true_and]
     split <;> rename_i hb <;> simp only [hb] <;> simp
   · simp only [h1]
     simp
 
-/-- **Secure variant.** Three positional arguments (user, auth key, priv key) are silent. -/
-theorem b509_secure_variant_silent (e : Env) (c : CallView) (hc : e.call? = some c) (h3 : 3 ≤ c.args.length) :
+/-- **B509 fires iff** the call is `UsmUserData` and is not authPriv. -/
+theorem b509_iff (e : Env) (c : CallView) (kws : Kws) (hc : e.call? = some c) (hk : c.callKeywords = .ok kws)
+    (r : PRaw) :
+    b509 e = .ok (some r) ↔
+      (e.qual = "pysnmp.hlapi.UsmUserData".toList ∧ usmEncrypted c.args.length kws = false) ∧
+      r = { sev := .medium, conf := .high, loc := .kw ["UsmUserData"] } := by
+  rw [b509_table e c kws hc hk, ok_ite_some_iff]
+  simp only [Spec.Crypto.b509, Bool.and_eq_true, beq_iff_eq, Bool.not_eq_true']
+
+/-- **Secure variant**, positional or keyword placement: a call passing both keys is silent. -/
+theorem b509_secure_variant_silent (e : Env) (c : CallView) (kws : Kws) (hc : e.call? = some c)
+    (hk : c.callKeywords = .ok kws) (henc : usmEncrypted c.args.length kws = true) :
     b509 e = .ok none := by
-  rw [b509_code e c hc, ok_ite_none_iff]
-  have : ¬ c.args.length < 3 := by omega
-  simp only [this, decide_false, Bool.and_false]
+  rw [b509_table e c kws hc hk, ok_ite_none_iff]
+  simp [Spec.Crypto.b509, henc]
 
 /-! ## B505 — weak keys -/
 
@@ -415,13 +392,13 @@ theorem b505_pyc_table (T : CryptoTables) (cfg : CfgVal) (e : Env) (c : CallView
   simp [pure, Except.pure]
 
 /-- **B505 table, `cryptography` EC.** The curve is the `curve` keyword if truthy, else the
-positional argument; a curve named in the table has its size, anything else counts as 224 bits. -/
+positional argument; a curve named in the table has its size, anything else — other names, unknown
+expressions, wrongly-typed literals such as `[1]` — counts as 224 bits (no `TypeError`: /repo fix 6e22cbb). -/
 theorem b505_ec_table (T : CryptoTables) (cfg : CfgVal) (e : Env) (c : CallView) (p : Nat) (cv : PyVal)
     (args : List PyVal) (hc : e.call? = some c)
     (hkt : assocGet T.cioFuncKeyType e.qual = some "EC".toList)
     (hp : assocGet T.cioArgPosition "EC".toList = some p)
     (hcv : c.argValue "curve" = .ok cv) (hargs : cv.truthy = false → c.callArgs = .ok args)
-    (hh : (cv.por ((args[p]?).getD (.int 0))).hashable = true)
     (hpyc : assocGet T.pycFuncKeyType e.qual = none) :
     b505 T cfg e = classifyKeySize cfg "EC".toList
       (.int (match cv.por ((args[p]?).getD (.int 0)) with | .str s => curveSize T s | _ => 224)) := by
@@ -434,8 +411,8 @@ theorem b505_ec_table (T : CryptoTables) (cfg : CfgVal) (e : Env) (c : CallView)
   have hsz : curveSizeOf T (cv.por ((args[p]?).getD (.int 0)))
       = (match cv.por ((args[p]?).getD (.int 0)) with | .str s => curveSize T s | _ => 224) := by
     unfold curveSizeOf curveSize; split <;> simp_all
-  simp only [Plugins.b505, hc, b505Cio, hkt, hp, h1, h2, hcurve, hh, hsz, bind, Except.bind, Bool.false_eq_true,
-    if_false, if_true, Bool.not_true]
+  simp only [Plugins.b505, hc, b505Cio, hkt, hp, h1, h2, hcurve, hsz, bind, Except.bind, Bool.false_eq_true,
+    if_false, if_true]
   cases hcl : classifyKeySize cfg "EC".toList
       (.int (match cv.por ((args[p]?).getD (.int 0)) with | .str s => curveSize T s | _ => 224)) with
   | error x => rfl
@@ -497,7 +474,7 @@ theorem b505_ec_curve (T : CryptoTables) (cfg : CfgVal) (th : Thresholds) (e : E
     (hpyc : assocGet T.pycFuncKeyType e.qual = none) (ht : HasThresholds cfg th) :
     b505 T cfg e = .ok ((Spec.Crypto.b505 th .ec (curveSize T s)).map b505Raw) := by
   have htr : (PyVal.str s).truthy = true := by cases s <;> simp_all [PyVal.truthy]
-  have := b505_ec_table T cfg e c p (.str s) [] hc hkt hp hcv (by simp [htr]) (by simp [PyVal.por, htr, PyVal.hashable]) hpyc
+  have := b505_ec_table T cfg e c p (.str s) [] hc hkt hp hcv (by simp [htr]) hpyc
   simp only [PyVal.por, htr, if_true] at this
   rw [this]
   exact classify_int ht .ec _
@@ -617,52 +594,43 @@ theorem NEG_timeout_opaque :
     b113 genCryptoTables (callEnv ["requests", "get"] [mkName "u"] [("timeout", mkInt 5)]) = .ok none := by
   constructor <;> decide +kernel
 
-/-- **Counter-example (known finding `C15-b509-keyword-keys`).** An *encrypted* SNMPv3 user passing
-its keys by keyword, `UsmUserData("u", authKey="a", privKey="p")`, is reported by B509 although the
-specification classifies it as encrypted (authPriv): only positional arguments are counted. -/
-theorem NEG_b509_keyword_keys :
-    b509 (callEnv ["pysnmp", "hlapi", "UsmUserData"] [mkStr "u"] [("authKey", mkStr "a"), ("privKey", mkStr "p")])
+/-- **Regression witness (fixed finding `C15-b509-keyword-keys`, /repo 60708c5).** An *encrypted*
+SNMPv3 user passing its keys by keyword, `UsmUserData("u", authKey="a", privKey="p")`: the check as it
+was (`call_args_count < 3`, `b509PositionalOnly`) reported it although the specification classifies
+it as encrypted; the repaired check is silent. -/
+theorem NEG_b509_positional_only :
+    b509PositionalOnly (callEnv ["pysnmp", "hlapi", "UsmUserData"] [mkStr "u"] [("authKey", mkStr "a"), ("privKey", mkStr "p")])
       = .ok (some { sev := .medium, conf := .high, loc := .kw ["UsmUserData"] }) ∧
     Spec.Crypto.b509 "pysnmp.hlapi.UsmUserData".toList 1
-      [(some "authKey".toList, .str "a".toList), (some "privKey".toList, .str "p".toList)] = false := by
-  constructor <;> decide +kernel
+      [(some "authKey".toList, .str "a".toList), (some "privKey".toList, .str "p".toList)] = false ∧
+    b509 (callEnv ["pysnmp", "hlapi", "UsmUserData"] [mkStr "u"] [("authKey", mkStr "a"), ("privKey", mkStr "p")]) = .ok none := by
+  refine ⟨?_, ?_, ?_⟩ <;> decide +kernel
 
-/-! ### Crash behaviour (property C06; recorded here because the model must not totalise it away) -/
+/-! ### No-crash regressions (former C06 crash witnesses; /repo fixes 6e22cbb and the set-display fix) -/
 
-/-- a list-valued key size raises `TypeError` in `_classify_key_size` (`[1] < 1024`) -/
-theorem NEG_crash_list_keysize :
+/-- `RSA.generate([1])`: a list-valued key size used to raise `TypeError` (`[1] < 1024`); now ungraded -/
+theorem REG_list_keysize_no_crash :
     b505 genCryptoTables (genCfg "weak_cryptographic_key")
       (callEnv ["Crypto", "PublicKey", "RSA", "generate"] [.mk "List".toList wpos [] [("elts".toList, true, [mkInt 1])]] [])
-      = .error .typeError := by
+      = .ok none := by
   decide +kernel
 
-/-- an unhashable curve (`ec.generate_private_key([1])`) raises in `curve in curve_key_sizes` -/
-theorem b505_ec_unhashable (T : CryptoTables) (cfg : CfgVal) (e : Env) (c : CallView) (p : Nat) (cv : PyVal)
-    (args : List PyVal) (hc : e.call? = some c)
-    (hkt : assocGet T.cioFuncKeyType e.qual = some "EC".toList)
-    (hp : assocGet T.cioArgPosition "EC".toList = some p)
-    (hcv : c.argValue "curve" = .ok cv) (hargs : cv.truthy = false → c.callArgs = .ok args)
-    (hh : (cv.por ((args[p]?).getD (.int 0))).hashable = false) :
-    b505 T cfg e = .error .typeError := by
-  have hcurve : curveArg c (pure p) = .ok (cv.por ((args[p]?).getD (.int 0))) := by
-    cases htr : cv.truthy with
-    | true => simp [curveArg, hcv, PyVal.por, htr, bind, Except.bind, pure, Except.pure]
-    | false => simp [curveArg, hcv, PyVal.por, htr, hargs htr, bind, Except.bind, pure, Except.pure]
-  have h1 : ("EC".toList == "DSA".toList || "EC".toList == "RSA".toList) = false := by decide
-  have h2 : ("EC".toList == "EC".toList) = true := by decide
-  simp only [Plugins.b505, hc, b505Cio, hkt, hp, h1, h2, hcurve, hh, bind, Except.bind, Bool.false_eq_true,
-    if_false, if_true, Bool.not_false]
-  rfl
+/-- `ec.generate_private_key([1])`: an unhashable curve used to raise in `curve in curve_key_sizes`;
+now it counts as an unknown curve (224 bits, silent under the defaults) -/
+theorem REG_unhashable_curve_no_crash :
+    b505 genCryptoTables (genCfg "weak_cryptographic_key")
+      (callEnv ["cryptography", "hazmat", "primitives", "asymmetric", "ec", "generate_private_key"]
+        [.mk "List".toList wpos [] [("elts".toList, true, [mkInt 1])]] [])
+      = .ok none := by
+  decide +kernel
 
-/-- when the keyword values do not evaluate (`{[1]}` among them: `literalValue` raises), every
-check that consults a keyword raises with the same exception — shown for B501 -/
-theorem b501_keyword_crash (T : CryptoTables) (e : Env) (c : CallView) (x : Crash)
-    (hc : e.call? = some c) (ht : Plugins.httpTarget T.b501HttpVerbs T.b501HttpxAttrs e = true)
-    (hk : c.callKeywords = .error x) : b501 T e = .error x := by
-  simp [Plugins.b501, hc, ht, CallView.checkArg, CallView.argValue, hk, bind, Except.bind]
+/-- `{[]}`: `_get_literal_value` used to raise `TypeError`; now the display is "not a literal" -/
+theorem REG_set_display_no_crash : literalValue setOfEmptyList = .ok .none := literalValue_setOfEmptyList
 
-/-- `{[]}`: `_get_literal_value` raises `TypeError` (unhashable element added to a set) -/
-theorem NEG_crash_set_display : literalValue setOfEmptyList = .error .typeError := literalValue_setOfEmptyList
+/-- **`_classify_key_size` is total** under well-formed settings: whatever the size argument
+evaluates to (list, tuple, bytes, complex, set, dict, …), no exception. -/
+theorem b505_classify_total {cfg : CfgVal} {t : Thresholds} (ht : HasThresholds cfg t) (K : KeyType) (v : PyVal) :
+    ∃ r, classifyKeySize cfg K.name v = .ok r := classify_total ht K v
 
 /-! ## Non-vacuity: the hypotheses of the table theorems are met by concrete calls -/
 
@@ -689,6 +657,8 @@ example : b508 (callEnv ["pysnmp", "hlapi", "CommunityData"] [mkStr "public"] [(
     = .ok (some { sev := .medium, conf := .high, loc := .kw ["CommunityData"] }) := by decide +kernel
 example : b509 (callEnv ["pysnmp", "hlapi", "UsmUserData"] [mkStr "u", mkStr "a", mkStr "p"] []) = .ok none := by
   decide +kernel
+example : b509 (callEnv ["pysnmp", "hlapi", "UsmUserData"] [mkStr "u"] [("authKey", mkStr "a")])
+    = .ok (some { sev := .medium, conf := .high, loc := .kw ["UsmUserData"] }) := by decide +kernel
 /-- boundary values against the generated defaults: 1023 HIGH, 1024 and 2047 MEDIUM, 2048 silent -/
 example :
     [1023, 1024, 2047, 2048].map (fun k =>
